@@ -17,6 +17,15 @@ CLAIMED = {
         note=TB + "translator T1 (py2lean.py) and its per-run differential self-check against the real functions.",
         ref="§6 C12, §3.1",
     ),
+    "C13": dict(
+        technique="Lean 4 theorems over definitions regenerated from slice_sizes.py by translator T1 (induction, omega), T1 differentially self-checked",
+        text="Machine-checked proof, for all sizes, depths and slice counts (unbounded), that slice bounds partition every subband "
+             "(existence and uniqueness of the containing slice, contiguity, ends), that subband sizes times their decimation equal the least padded multiple, "
+             "that the same-dimensions flag is true iff all slices of all components and levels have equal extents, and that low-delay slice sizes are "
+             "non-negative and telescope to floor(n*num/den).",
+        note=TB + "translator T1 and its per-run differential self-check.",
+        ref="§6 C13, §3.1",
+    ),
 }
 
 PENDING = "check not built yet in this round (see DESIGN.md §9 build order); no claim is made"
